@@ -179,7 +179,21 @@ fn eval_cli(map: &[Option<usize>], cs: &CallSet, rows: &[Vec<Cls>], container: C
     if let Some(v) = what.strip_prefix("verbosity") {
         args.push(v);
     }
-    let o = run_sfs(&args, Stdin::Bytes(&bytes), scratch);
+    let o = if what == "by-path" {
+        // the input named on the command line, under the name a user would give that container
+        // (an uncompressed BCF is conventionally called *.bcf as well)
+        let dir = scratch.path(".d");
+        std::fs::create_dir_all(&dir).expect("scratch dir");
+        let name = match container { Container::Vcf => "calls.vcf", Container::VcfGz => "calls.vcf.gz", Container::Bcf | Container::RawBcf => "calls.bcf" };
+        let path = dir.join(name);
+        std::fs::write(&path, &bytes).expect("scratch write");
+        args.push(path.to_str().unwrap());
+        let o = run_sfs(&args, Stdin::Null, scratch);
+        let _ = std::fs::remove_dir_all(&dir);
+        o
+    } else {
+        run_sfs(&args, Stdin::Bytes(&bytes), scratch)
+    };
     if (what == "repeated-entry" || what == "contradictory-entry") && o.diagnosed_error() && o.stdout.is_empty() {
         return None;
     }
@@ -370,6 +384,7 @@ pub fn run(tier: Tier) -> i32 {
         let all = callset_from_rows(s, &rows, 0);
         for c in Container::all() {
             cjobs.push((map.clone(), all.clone(), rows.clone(), c, "every-row".into()));
+            cjobs.push((map.clone(), all.clone(), rows.clone(), c, "by-path".into()));
         }
         if map.iter().any(|p| p.is_some()) {
             cjobs.push((map.clone(), all.clone(), rows.clone(), Container::Vcf, "repeated-entry".into()));
@@ -415,7 +430,7 @@ pub fn run(tier: Tier) -> i32 {
         name: "cli: sfs create -s".into(),
         evaluations: cjobs.len() as u64,
         nontrivial: nt,
-        note: format!("S={s}: {} maps x ({} one-record VCFs + every-row call set in 4 containers + explicit --precision 0/1/6/17 + verbosity flags -q/-v/-vv/-vvv + a list naming one sample twice (same label; and with another label: error, first- or last-label assignment) + the list grouped by population (order unlike the column order) + 8 decorations in vcf and bcf)", maps.len(), rows.len()),
+        note: format!("S={s}: {} maps x ({} one-record VCFs + every-row call set in 4 containers on stdin and by path under its conventional file name + explicit --precision 0/1/6/17 + verbosity flags -q/-v/-vv/-vvv + a list naming one sample twice (same label; and with another label: error, first- or last-label assignment) + the list grouped by population (order unlike the column order) + 8 decorations in vcf and bcf)", maps.len(), rows.len()),
         exhaustive: true,
         extra: vec![],
     });
